@@ -72,7 +72,8 @@ PASS0 = ("Clone::clone", "Option::<T>::cloned", "Option::<T>::copied", "Deref::d
          "Option::<T>::as_ref", "Option::<T>::as_deref", "Iterator::rev", "Iterator::copied", "Iterator::cloned",
          "std::convert::Into::into", "std::convert::From::from", "Option::<T>::unwrap_or_default", "<[T]>::last", "<[T]>::first",
          "::last", "::first", "Arc::<T>::new", "Option::<T>::ok_or", "Try>::branch", "Result::<T, E>::ok")
-PASS_CLOSURE = ("Option::<T>::map", "Option::<T>::and_then", "Iterator::map", "Iterator::filter_map", "Iterator::find_map")
+PASS_CLOSURE = ("Option::<T>::map", "Option::<T>::and_then", "Iterator::map", "Iterator::filter_map", "Iterator::find_map",
+                "Iterator::flat_map")
 
 def linear(term):
     """split term into (base term, constant offset); handles +/- const incl. checked forms"""
@@ -128,8 +129,8 @@ def derive(cls, term, leaf, depth=0):
                 sa = strip(a)
                 if sa[0] == "const" and sa[2] == 0:
                     continue
-                if sa[0] == "cycle":
-                    continue
+                if sa[0] == "cycle" or linear(a)[0][0] == "cycle":
+                    continue  # the loop-carried value itself: bounded by the other alternatives plus its own step
                 return None
             ks.append(r)
         return (max(ks) + off) if ks else None
@@ -207,31 +208,50 @@ class Gate:
         return "%s %s %s" % (show(self.x_term), self.op, show(self.y_term))
 
 
-def find_gates(prog, body, cls, ev=None):
-    """All comparisons in `body` between an X-class and a Y-class value.
-    Returns list of (Gate, kind, extra) where kind is 'switch' (extra = (true_succ, false_succ)),
-    or 'value' (a bool value not directly switched on; extra = (block, stmt idx, lhs place))."""
+CALL_CMP = {"lt": "Lt", "le": "Le", "gt": "Gt", "ge": "Ge", "eq": "Eq", "ne": "Ne"}
+
+
+def comparisons(prog, body, ev=None):
+    """Every comparison in `body`, in both MIR forms: `BinaryOp(Lt, a, b)` and the call form
+    `PartialOrd::lt(&a, &b)` / `PartialEq::eq`. Yields dicts:
+      op, a, b (terms, upvars resolved), block, stmt ('T' for calls), lhs (place of the bool),
+      sw_block (block whose terminator may switch on the bool), line"""
     ev = ev or Ev(prog, body)
-    out = []
     for bi, si, s in body.assigns():
         rv = s["rv"]
         if rv["k"] != "bin" or rv["o"] not in CMP:
             continue
         a = resolve_upvars(prog, ev.operand(rv["a"], (bi, si)), body)
         b = resolve_upvars(prog, ev.operand(rv["b"], (bi, si)), body)
+        yield {"op": rv["o"], "a": a, "b": b, "block": bi, "stmt": si, "lhs": s["lhs"], "sw_block": bi, "line": s["line"], "exp": s.get("exp", "")}
+    for bi, t in body.calls():
+        decl = body.callee_decl(t) or ""
+        last = decl.rsplit("::", 1)[-1]
+        if last in CALL_CMP and ("PartialOrd" in decl or "PartialEq" in decl) and len(t["args"]) == 2 and t.get("target") is not None:
+            a = resolve_upvars(prog, ev.operand(t["args"][0], (bi, "T")), body)
+            b = resolve_upvars(prog, ev.operand(t["args"][1], (bi, "T")), body)
+            yield {"op": CALL_CMP[last], "a": a, "b": b, "block": bi, "stmt": "T", "lhs": t["dest"], "sw_block": t["target"], "line": t["line"], "exp": t.get("exp", "")}
+
+
+def find_gates(prog, body, cls, ev=None):
+    """All comparisons in `body` between an X-class and a Y-class value."""
+    out = []
+    for c in comparisons(prog, body, ev):
+        if "debug_assert" in c["exp"]:
+            continue  # compiled out of release builds: never a gate
+        a, b = c["a"], c["b"]
         ax, ay, bx, by = cls.has_x(a), cls.has_y(a), cls.has_x(b), cls.has_y(b)
         if ax and by and not ay:
-            xt, yt, op = a, b, rv["o"]
+            xt, yt, op = a, b, c["op"]
         elif bx and ay and not by:
-            xt, yt, op = b, a, SWAP[rv["o"]]
+            xt, yt, op = b, a, SWAP[c["op"]]
         else:
             continue
         xb, xo = linear(xt)
-        g = Gate(body, bi, op, xt, yt, xo, y_offset(cls, yt), s["line"])
-        g.stmt = si
-        g.lhs = s["lhs"]
+        g = Gate(body, c["sw_block"], op, xt, yt, xo, y_offset(cls, yt), c["line"])
+        g.stmt = c["stmt"]
+        g.lhs = c["lhs"]
         out.append(g)
-    # calls to a canonical predicate are gates too: handled by callers through `call_gates`
     return out
 
 
